@@ -295,12 +295,23 @@ Definition run_batch (b : binput) : list Z :=
    annotation (fields present in it override; an annotation that does not parse is ignored), then
    the node's reclaim-ratio labels (take precedence over both; a label that is not a non-negative
    float is ignored).  A label "x.yz" is strconv.ParseFloat-ed and int64(v*100) is taken. *)
-Definition ratio_label_pct (h : Z) : Z := f_trunc (f_mul (rne h 100) (f_of_int 100)).
+(* A label that spells the decimal h / scale in ANY form strconv.ParseFloat accepts (fixed point with 1-4
+   decimals, exponent form "6.55e-1", leading "+", leading "."): ParseFloat is correctly rounded, so
+   the parsed double is rne h scale whatever the spelling.  Label kinds: 1 two decimals; 4 three decimals;
+   5 three decimals in exponent form; 6 one decimal; 7 four decimals; others: absent / not a non-negative
+   float, ignored. *)
+Definition label_scale (kind : Z) : Z :=
+  if kind =? 1 then 100 else if (kind =? 4) || (kind =? 5) then 1000
+  else if kind =? 6 then 10 else if kind =? 7 then 10000 else 0.
+Definition ratio_label_pct_k (scale h : Z) : Z := f_trunc (f_mul (rne h scale) (f_of_int 100)).
+Definition ratio_label_pct (h : Z) : Z := ratio_label_pct_k 100 h.
+Definition label_pct (kind h dflt : Z) : Z :=
+  if 0 <? label_scale kind then ratio_label_pct_k (label_scale kind) h else dflt.
 Definition ovr (v base : Z) : Z := if v <? 0 then base else v.     (* -1: field absent *)
 Record nodecfg := mkNodeCfg {
   nc_anno : Z;                (* 0 no annotation, 1 well-formed, other: does not parse *)
   nc_a_cpu_reclaim : Z; nc_a_mem_reclaim : Z; nc_a_cpu_thr : Z; nc_a_mem_thr : Z;
-  nc_l_cpu_kind : Z; nc_l_cpu : Z;     (* kind 1: label "h/100" with h >= 0; other kinds: absent/ignored *)
+  nc_l_cpu_kind : Z; nc_l_cpu : Z;     (* label kind (see label_scale) and numerator h >= 0 *)
   nc_l_mem_kind : Z; nc_l_mem : Z }.
 Definition nodecfg0 : nodecfg := mkNodeCfg 0 (-1) (-1) (-1) (-1) 0 0 0 0.
 Definition resolve_strategy (s : strategy) (c : nodecfg) : strategy :=
@@ -310,8 +321,8 @@ Definition resolve_strategy (s : strategy) (c : nodecfg) : strategy :=
   let ct := if a then ovr (nc_a_cpu_thr c) (s_cpu_thr s) else s_cpu_thr s in
   let mt := if a then ovr (nc_a_mem_thr c) (s_mem_thr s) else s_mem_thr s in
   mkStrategy (s_cpu_policy s) (s_mem_policy s)
-    (if nc_l_cpu_kind c =? 1 then ratio_label_pct (nc_l_cpu c) else cr)
-    (if nc_l_mem_kind c =? 1 then ratio_label_pct (nc_l_mem c) else mr)
+    (label_pct (nc_l_cpu_kind c) (nc_l_cpu c) cr)
+    (label_pct (nc_l_mem_kind c) (nc_l_mem c) mr)
     ct mt (s_degrade s).
 
 (* ------------------------------------------------------------------------------------------ *)
@@ -397,6 +408,6 @@ Definition resolve_mstrategy (s : mstrategy) (c : mnodecfg) : mstrategy :=
   let sm := if a then ovr (mc_a_static_mem c) (ms_static_mem s) else ms_static_mem s in
   let un := if a then ovr (mc_a_unalloc c) (ms_unalloc s) else ms_unalloc s in
   mkMStrategy (ms_static s) (ms_cpu_thr s) (ms_mem_thr s) un
-    (if mc_l_cpu_kind c =? 1 then ratio_label_pct (mc_l_cpu c) else sc)
-    (if mc_l_mem_kind c =? 1 then ratio_label_pct (mc_l_mem c) else sm)
+    (label_pct (mc_l_cpu_kind c) (mc_l_cpu c) sc)
+    (label_pct (mc_l_mem_kind c) (mc_l_mem c) sm)
     (ms_degrade s).
